@@ -141,7 +141,7 @@ class MinPathCoverCycles(walkmodel.AbstractWalkModelDiGraph):
 
         self.solve_time_start = time.perf_counter()
         
-        for i in range(self.get_lowerbound_k(), self.G.number_of_edges() + 1):
+        for i in range(self.get_lowerbound_k(), self.G.number_of_edges() + len(self.subset_constraints) + 1):
             utils.logger.info(f"{__name__}: iteration with k = {i}")
 
             i_solver_options = copy.deepcopy(self.solver_options)
